@@ -18,7 +18,7 @@ RULE = (
     "over {functions, gradient, both, functions on a 2-row batch} x 2 free-variable points through a real Plan/optimizer "
     "step started from the configured initial values or from explicit start values; real slsqp / nelder-mead / "
     "differential_evolution(seed, scalar and vectorized) short runs with the scipy entry point wrapped to observe the vectors the "
-    "algorithm sees; samplers {one built-in, two built-in samplers on disjoint variable sets, injected design}; variable "
+    "algorithm sees; samplers {one built-in, two built-in samplers on disjoint variable sets, two quasi-Monte-Carlo samplers on disjoint sets, injected design}; variable "
     "scaler on/off; nested plans whose inner optimization owns the complementary mask. Monitors on EVERY evaluator row and "
     "EVERY delivered result (user-domain and optimizer-domain): fixed entries == the starting value (after a nested "
     "delivery: the value last delivered by the inner optimization), byte-equal without transforms, 1e-12 with; gradient "
@@ -26,13 +26,13 @@ RULE = (
     "variables. Trivial: the all-free mask (nothing is fixed)."
 )
 ASSUMPTIONS = ["initial values inside the bounds; quadratic ensemble; nested inner optimization is a scripted 2-request run"]
-BOUNDS = {"quick": "all 7 masks + none, sequences <=3, 3 sampler settings, scaler on/off; nested sequences <=3", "thorough": "sequences <=4"}
+BOUNDS = {"quick": "all 7 masks + none, sequences <=3, 4 sampler settings, scaler on/off; nested sequences <=3", "thorough": "sequences <=4"}
 
 V = 3
 X0 = np.array([0.5, -1.0, 2.0])
 REQUESTS = [("f", 0), ("f", 1), ("g", 0), ("g", 1), ("fg", 0), ("fg", 1), ("fb", 0)]
 START_SHIFT = np.array([0.125, 0.25, -0.5])
-SAMPLERS = ["one", "two", "design"]
+SAMPLERS = ["one", "two", "qmc", "design"]
 
 
 def ensemble_fn() -> AffineEnsemble:
@@ -61,6 +61,11 @@ def build_config(mask: Any, sampler: str, method: str, options: Any) -> dict[str
         config["samplers"] = [{"method": "norm"}]
     elif sampler == "two":
         config["samplers"] = [{"method": "norm"}, {"method": "uniform", "shared": True}]
+        config["gradient"]["samplers"] = [0, 1, 0]
+    elif sampler == "qmc":
+        # quasi-Monte-Carlo methods map their points from the unit cube: what they leave for variables they do not handle
+        # must still be zero
+        config["samplers"] = [{"method": "sobol"}, {"method": "halton", "shared": True}]
         config["gradient"]["samplers"] = [0, 1, 0]
     else:
         design = [[0.5 * (k + 1) * (-1) ** (k + i) for i in range(n_free)] for k in range(2)]
